@@ -454,7 +454,7 @@ def check(case):
             op = FMMetrics()
             try:
                 op.execute(fm)
-                edit(fm)
+                cm.checked_edit(fm, edit, model, em, what)
                 res = op.execute(fm).get_result()
                 engine.tick(2)
             except Exception as exc:  # noqa: BLE001
